@@ -1177,6 +1177,10 @@ lyd_hash_table_schema_val_equal(void *val1_p, void *val2_p, ly_bool UNUSED(mod),
     if (val1 == val2->schema) {
         /* schema match is enough */
         return 1;
+    } else if ((val1->module->ctx != val2->schema->module->ctx) && !strcmp(val1->name, val2->schema->name) &&
+            !strcmp(val1->module->name, val2->schema->module->name)) {
+        /* schema node from another context, compare the names like when searching without hashes */
+        return 1;
     } else {
         return 0;
     }
